@@ -114,7 +114,13 @@ def run_asm(mir, fn, mn, opnd, var=None, scheme='4K', high_byte=False, budget_s=
     def m_get_variable(i, p, fr, c, a, d, r):
         if var is None: raise Unsupported('get_variable without a variable')
         return ret(p, fr, d, r, Ref(Cell(var)))
+    def m_variables_get(i, p, fr, c, a, d, r):
+        # lookup of the operand's name in the variable table: the operand names a declared variable (precondition of the
+        # configurations; the only name the generator invents, ROM_SELECT, takes the error path when it is not declared)
+        if var is None: raise Unsupported('variables.get without a variable')
+        return ret(p, fr, d, r, opt(Ref(Cell(var))))
     models = dict(ASM_MODELS); models[r'CompilerState::<.*>::get_variable$'] = m_get_variable
+    models[r'HashMap::<std::string::String, Variable>::get::<'] = m_variables_get
     it = Interp(ctx, inline=[r'GeneratorState<.*>>::asm$'], models=models); it.assume_some = False
     it.allow_uninterpreted = [r'syntax_error$', r'AssemblyCode::append_asm$', r'^log::', r'max_level', r'fmt::rt::Argument', r'^Arguments::', r'to_string$']
     gs = Adt('GeneratorState', None); F = STRUCTS['GeneratorState']
